@@ -60,9 +60,42 @@ def _subset(draw, names, kmin, kmax):
 @st.composite
 def model(draw, for_tv=False):
     """for_tv=True keeps the product of domains small enough to enumerate every assignment (C06)."""
-    flavour = draw(st.sampled_from(["dfs-native", "dfs-native", "dfs-native", "sums", "circuit", "no_overlap", "cumulative", "mixed"]))
+    flavour = draw(st.sampled_from(["dfs-native", "dfs-native", "needle", "needle", "sums", "circuit", "no_overlap", "cumulative", "mixed"]))
     cons = []
-    if flavour == "circuit":
+    if flavour == "needle":
+        # a hidden target assignment t; every constraint holds at t, most are disequalities that cut away other
+        # assignments: few solutions, so the DFS has to fail in first-tried branches and recover in siblings
+        n = draw(st.integers(2, 4))
+        vs = draw(_vars(n, -1, 1, 2))
+        vs = [[nm, lb, max(ub, lb + 1)] for nm, lb, ub in vs]
+        names = [v[0] for v in vs]
+        t = {nm: draw(st.integers(lb, ub)) for nm, lb, ub in vs}
+        for _ in range(draw(st.integers(2, 6))):
+            kind = draw(st.sampled_from(["ne-var", "ne-diff", "ne-sum", "ne-const", "eq-lin"]))
+            x = draw(st.sampled_from(names))
+            y = draw(st.sampled_from([m for m in names if m != x]))
+            if kind == "ne-var":
+                if t[x] != t[y]:
+                    cons.append(["rel", "!=", ["var", x], ["var", y]])
+            elif kind == "ne-diff":
+                k = draw(st.integers(-2, 2))
+                if t[x] - t[y] != k:
+                    lhs = ["sub", ["var", x], ["var", y]]
+                    cons.append(["rel", "!=", lhs, ["const", k]] if draw(st.booleans()) else ["rel", "!=", ["var", x], ["add", ["var", y], ["const", k]]])
+            elif kind == "ne-sum":
+                k = draw(st.integers(-2, 3))
+                if t[x] + t[y] != k:
+                    cons.append(["rel", "!=", ["add", ["var", x], ["var", y]], ["const", k]])
+            elif kind == "ne-const":
+                k = draw(st.integers(-1, 3))
+                if t[x] != k:
+                    cons.append(["rel", "!=", ["var", x], ["const", k]])
+            else:
+                c1 = draw(st.sampled_from([1, 1, 2, -1]))
+                cons.append(["rel", "==", ["add", ["mul", ["var", x], c1], ["var", y]], ["const", c1 * t[x] + t[y]]])
+        if not cons:
+            cons.append(["rel", "!=", ["var", names[0]], ["const", t[names[0]] + 1]])
+    elif flavour == "circuit":
         n = draw(st.integers(2, 5 if not for_tv else 4))
         vs = []
         for i in range(n):
@@ -93,7 +126,11 @@ def model(draw, for_tv=False):
         n = draw(st.integers(2, 4))
         vs = draw(_vars(n, -1, 2, 4))
         names = [v[0] for v in vs]
-        cons.append(["no_overlap", names, [draw(st.integers(1, 3)) for _ in names]])
+        durs = [draw(st.integers(1, 3)) for _ in names]
+        if draw(st.booleans()):  # twins: identical domains and durations, so only the other constraints tell them apart
+            vs = [[nm, vs[0][1], vs[0][2]] for nm in names]
+            durs = [durs[0]] * n
+        cons.append(["no_overlap", names, durs])
         for _ in range(draw(st.integers(0, 1))):
             cons.append(draw(_rel(names)))
     else:
